@@ -158,3 +158,42 @@ prop(
     assumptions=["prometheus client: WithLabelValues pairs the i-th value with the i-th declared label name; Reset drops all series; Observe adds one sample (modelled)",
                  "label maps have distinct keys (Go map)"],
 )
+
+FILE_ACCESS = ("internal/trigger/file", "file_access.go")
+
+
+def c14_key(c, model):
+    if c["impl"] == "crash":
+        return "input-crash-" + c["cmd"]
+    return "input-" + c["cmd"]
+
+
+prop(
+    id="C14",
+    stages=[dict(name="c14prims", pkg="c14", test="TestC14Prims", access=[FILE_ACCESS], timeout_quick=300, timeout_thorough=3000),
+            dict(name="c14rate", pkg="c14", test="TestC14Rate", access=[FILE_ACCESS], timeout_quick=300, timeout_thorough=3000),
+            dict(name="c14ctors", pkg="c14", test="TestC14Ctors", access=[FILE_ACCESS], timeout_quick=300, timeout_thorough=3000),
+            dict(name="c14config", pkg="c14", test="TestC14Config", access=[FILE_ACCESS], timeout_quick=300, timeout_thorough=3000),
+            dict(name="c14fuzz", pkg="c14", test="TestC14Fuzz", access=[FILE_ACCESS], timeout_quick=300, timeout_thorough=3000)],
+    key=c14_key,
+    rule="grammar-based generators with near-miss mutation (delete/duplicate/insert/replace over 0-9 / . - + e µ s m h n u : , space) for rate and stages strings "
+         "(thorough: every string of up to 4 symbols for ParseRate), constructor argument tuples (valid and invalid distributions, frequencies <= 0, weights), config ASTs with any subset "
+         "of fields present in the default section and in each stage, all modes, zero/negative numbers, emitted as YAML and parsed by the real ParseConfigFile at interesting instants; "
+         "outcome class and accepted value compared exactly with the model; Go library ports (ParseDuration, Atoi, TrimSpace) compared primitive by primitive; "
+         "separate malformed stream: random bytes and mutated documents must not panic; non-trivial = rate with a '/' / multi-stage string / any constructor tuple / config with stage-start and >= 2 stages; distinct = distinct inputs",
+    assumptions=["YAML decoding (gopkg.in/yaml.v3) and cobra/pflag are library code: the model starts at the decoded value; arbitrary bytes are covered only by the crash-freedom stream",
+                 "strconv.ParseFloat on the gaussian weights is a library oracle (weights_ok)",
+                 "strings.TrimSpace is modelled for ASCII white space; generated stages strings contain no U+0085/U+00A0",
+                 "time.ParseDuration/strconv.Atoi ports are checked by stage c14prims"],
+)
+
+prop(
+    id="C15",
+    stages=[dict(name="c14config", pkg="c14", test="TestC14Config", access=[FILE_ACCESS], timeout_quick=300, timeout_thorough=3000),
+            dict(name="c15runs", pkg="c15", test="TestC15Runs", access=[FILE_ACCESS, RUN_ACCESS, WORKERS_ACCESS], timeout_quick=300, timeout_thorough=3000)],
+    rule="(a) generated configs (1-5 stages, all modes, random omissions, defaults) x now at every interesting instant relative to stage-start (before, each stage boundary +-1ns, after the end) "
+         "against ParseConfigFile: kept stages, per-stage duration / tick interval / users / parameters, total duration and limits compared exactly; (b) real file-triggered runs with short stages whose bodies read "
+         "the environment at entry: stage order, parameters present while a stage triggers, none set after Run.Do; non-trivial = config with stage-start and >= 2 stages / file run with >= 2 stages; distinct = distinct cases",
+    assumptions=["YAML decoding is library code (model starts at the decoded value)",
+                 "os.Setenv/Unsetenv semantics; the environment is process-global, so the run-time part uses keys private to the harness"],
+)
